@@ -302,9 +302,16 @@ func checkWellKnown(c *fw.Ctx) {
 			}
 		}
 	}
+	// io.LimitReader(r, WellKnownMaxSize) is the same reader
+	for _, dc := range deepCallsTo(fn, fw.NameIs("io.LimitReader")) {
+		if a := dc.Call.Common().Args; len(a) == 2 && fw.Sig(a[1]) == "51200" {
+			okLimit = true
+		}
+	}
 	c.Check(okLimit, rule, "the body is read through a LimitedReader of WellKnownMaxSize", c.P.Pos(fn.Pos()), "", "no io.LimitedReader{N: WellKnownMaxSize}")
 	for _, call := range fw.CallsTo(fn, false, fw.NameIs("io.ReadAll")) {
-		c.Check(strings.Contains(fw.Sig(call.Common().Args[0]), "io.LimitedReader"), rule, "only the limited reader is read", c.P.Pos(call.Pos()), "", "ReadAll on "+fw.Sig(call.Common().Args[0]))
+		s := fw.Sig(call.Common().Args[0])
+		c.Check(strings.Contains(s, "io.LimitedReader") || (strings.HasPrefix(s, "io.LimitReader(") && strings.HasSuffix(s, ",51200)")), rule, "only the limited reader is read", c.P.Pos(call.Pos()), "", "ReadAll on "+s)
 	}
 	// the max-age directive is recognised whatever optional whitespace surrounds it ("public, max-age=60")
 	nEq := 0
